@@ -61,6 +61,12 @@ class StreamingDetector(ABC):
                     raise ValueError(
                         "Columns of new data must match with columns of prior data."
                     )
+            elif self._input_col_dim is not None:
+                # first dataframe after bare arrays: its width must match theirs
+                if X.shape[1] != self._input_col_dim:
+                    raise ValueError(
+                        "Column-dimension of new data must match prior data."
+                    )
             ary = X.values
         else:
             ary = copy.copy(X)
